@@ -4,7 +4,7 @@ VERIF = os.path.dirname(os.path.dirname(os.path.abspath(__file__)))
 sys.path.insert(0, VERIF)
 NA = json.load(open(os.path.join(VERIF, "not_applicable.json")))
 ALL = ["C%02d" % i for i in range(1, 21)]
-PENDING = {"C17"}      # module under construction: not claimed until its check is quiet on the unchanged tree
+PENDING = set()      # module under construction: not claimed until its check is quiet on the unchanged tree
 
 def main():
     checks = []
